@@ -70,7 +70,8 @@ def notes(draw, max_n=7, min_n=0):
     out = []
     for _ in range(n):
         on = draw(st.integers(0, 64)) / 16
-        dur = draw(st.integers(1, 32)) / 16
+        # short notes matter: only for them does the offset floor (offset_min_tolerance) beat offset_ratio * duration
+        dur = draw(st.one_of(st.integers(1, 6), st.integers(1, 32))) / 16
         out.append([on, on + dur, draw(g.pitch_hz()), draw(st.integers(0, 127))])
     return sorted(out)
 
